@@ -18,6 +18,18 @@
 //! key, no operation fails, and the answers + final contents are linearizable (some sequential
 //! order consistent with real-time order explains them; entries may be forgotten only in runs
 //! where an eviction actually removed something).
+//!
+//! DiskCache under the same controller (hooks `disk.*`; model = lean Model/DiskConc):
+//!   drun keys=<cache key strings> pre=<ops> t=<ops>|<ops>[|<ops>] s=<digits>
+//!   -> pre=.. r=.. tr=<sites>/<drain> n=<entry_count> b=<disk_usage> c=<contains per key>
+//!      fs=<file name>=<hex>;.. g=<probe get per key> n2=.. b2=..
+//! Oracle: no operation fails, every value served and every file left under a key's name was
+//! put for that key, books at quiescence, no indexed entry without a file, linearizable; sigs
+//! `disk-*` name the race the run contains (shared temporary name, put/remove, stale get).
+//!
+//! DynamicContainer: `dstress …` lines = free-running rounds on 2-4 real threads (no hooks, no
+//! model; the driver answers the constant `oracle-only`): reads return NotFound or exactly the
+//! written bytes, nothing fails, counts settle, a re-opened container agrees; sigs `dyn-conc-*`.
 #[cfg(not(feature = "hooks"))]
 fn main() {
     eprintln!("c11 needs --features hooks (cascette-cache/verif-hooks)");
@@ -591,7 +603,8 @@ mod real {
                         if !self.disk {
                             r.remove(k);
                         }
-                        res == "f"
+                        // disk: `t` while only the fallback path's TTL-less index entry exists
+                        res == "f" || (self.disk && res == "t")
                     }
                     None => res == "f",
                 },
@@ -1154,11 +1167,14 @@ mod real {
         };
         let any_tmp_clash = ops.iter().any(|(t, i, _, _)| tmp_clash(*t, *i));
         // (2) a get that went down a removal path (expired entry seen: site F; or read failed)
-        //     and whose look and removal are separated by another thread's step on the same key
+        //     while another thread's remove / put / removal-path get of the same key overlaps it
         let took_expired = |t: usize, i: usize| out.d.steps.iter().any(|s| s.tid == t && s.op == i && s.after == 'F');
         let removers_of = |k: usize, t: usize, i: usize| {
             ops.iter().any(|(u, j, o, jv)| {
-                *u != t && o.key() == Some(k) && overlap(iv[t][i], *jv) && (matches!(o, Op::Remove(_) | Op::Put(..)) || (matches!(o, Op::Get(_)) && took_expired(*u, *j)))
+                *u != t
+                    && o.key() == Some(k)
+                    && overlap(iv[t][i], *jv)
+                    && (matches!(o, Op::Remove(_) | Op::Put(..)) || (matches!(o, Op::Get(_)) && (took_expired(*u, *j) || out.results[*u].get(*j).is_some_and(|r| r == "err"))))
             })
         };
         let stale_get = ops.iter().any(|(t, i, o, _)| match o {
@@ -1387,6 +1403,212 @@ mod real {
         DCase { pre, progs }
     }
 
+    // ------------------------------------------------------------------ DynamicContainer: free-running stress (oracle only)
+
+    /// One round: a fresh DynamicContainer, `nt` OS threads released together by a barrier, each
+    /// running its own list of write / read / remove / query over a shared pool of payloads, no
+    /// schedule control (the container has no hooks). The container is content-addressed (index
+    /// key = MD5 of the BLTE image of the data), so "a value some put wrote for that key" means:
+    /// a read returns NotFound or exactly the pool payload with that key. Oracle only.
+    fn dyn_round(r: &mut Runner, round_seed: u64, round: u64) {
+        let rng = &mut Rng::new(round_seed);
+        use cascette_client_storage::StorageError;
+        use cascette_client_storage::container::{AccessMode, Container, DynamicContainer};
+        #[derive(Clone, Copy, Debug)]
+        enum D {
+            W(usize),
+            R(usize),
+            X(usize),
+            Q(usize),
+        }
+        let ekey = |data: &[u8]| {
+            let mut v = Vec::with_capacity(9 + data.len());
+            v.extend_from_slice(b"BLTE\0\0\0\0N");
+            v.extend_from_slice(data);
+            md5::compute(&v).0
+        };
+        let np = 5usize;
+        let pool: Vec<Vec<u8>> = (0..np)
+            .map(|i| {
+                let n = *rng.pick(&[0usize, 1, 17, 300, 2000, 9000]);
+                let mut v = vec![i as u8; 1];
+                v.extend((0..n).map(|_| rng.byte()));
+                v
+            })
+            .collect();
+        let keys: Vec<[u8; 16]> = pool.iter().map(|p| ekey(p)).collect();
+        let nt = rng.range(2, 4) as usize;
+        let progs: Vec<Vec<D>> = (0..nt)
+            .map(|_| {
+                (0..rng.range(4, 14))
+                    .map(|_| {
+                        let p = rng.below(np as u64) as usize;
+                        // every 4th round: writers only (every write re-saves the index files)
+                        match if round % 4 == 3 { 0 } else { rng.below(10) } {
+                            0..=3 => D::W(p),
+                            4..=6 => D::R(p),
+                            7..=8 => D::X(p),
+                            _ => D::Q(p),
+                        }
+                    })
+                    .collect()
+            })
+            .collect();
+        let line = format!("dstress seed={round_seed} round={round} threads={nt} ops={}", progs.iter().map(Vec::len).sum::<usize>());
+        r.s.line(&line, "oracle-only");
+        r.s.case(Some(line.as_str()));
+        r.s.tally("dyn:stress-rounds");
+        let dir = scratch_dir();
+        let c = match DynamicContainer::builder(dir.path().join("data")).access_mode(AccessMode::ReadWrite).segment_limit(100).max_segment_size(1 << 30).build() {
+            Ok(c) => Arc::new(c),
+            Err(e) => {
+                r.s.oracle_fail("dyn-conc-setup", &format!("build: {e}"), &[line.clone()]);
+                return;
+            }
+        };
+        let rt = tokio::runtime::Builder::new_current_thread().build().expect("rt");
+        if let Err(e) = rt.block_on(c.open()) {
+            r.s.oracle_fail("dyn-conc-setup", &format!("open: {e}"), &[line.clone()]);
+            return;
+        }
+        let class = |e: &StorageError| match e {
+            StorageError::NotFound(_) => "notfound",
+            StorageError::TruncatedRead(_) => "truncated",
+            StorageError::Archive(_) => "archive",
+            StorageError::Io(_) => "io",
+            _ => "other",
+        };
+        let barrier = Arc::new(std::sync::Barrier::new(nt));
+        let fails: Arc<Mutex<Vec<(String, String)>>> = Arc::new(Mutex::new(vec![]));
+        let mut handles = vec![];
+        for (tid, prog) in progs.iter().cloned().enumerate() {
+            let (c, barrier, fails, pool, keys) = (c.clone(), barrier.clone(), fails.clone(), pool.clone(), keys.clone());
+            handles.push(std::thread::spawn(move || {
+                let rt = tokio::runtime::Builder::new_current_thread().build().expect("rt");
+                let fail = |sig: &str, msg: String| fails.lock().unwrap_or_else(|e| e.into_inner()).push((sig.to_string(), msg));
+                barrier.wait();
+                for (i, op) in prog.iter().enumerate() {
+                    let res = catch(AssertUnwindSafe(|| match *op {
+                        D::W(p) => {
+                            if let Err(e) = rt.block_on(c.write(&keys[p], &pool[p])) {
+                                let save = e.to_string().contains("Failed to save index");
+                                fail(&if save { "dyn-conc-save-index-fails".to_string() } else { format!("dyn-conc-write-{}", class(&e)) }, format!("thread {tid} op {i}: write of payload {p} ({} bytes) failed: {e}", pool[p].len()));
+                            }
+                        }
+                        D::R(p) => {
+                            let mut buf = vec![0u8; pool[p].len() + 64];
+                            match rt.block_on(c.read(&keys[p], 0, 0, &mut buf)) {
+                                Ok(n) => {
+                                    if buf[..n] != pool[p][..] {
+                                        fail("dyn-conc-read-wrong-bytes", format!("thread {tid} op {i}: read of payload {p} returned {n} bytes that are not the {} bytes written", pool[p].len()));
+                                    }
+                                }
+                                Err(StorageError::NotFound(_)) => {}
+                                Err(e) => fail(&format!("dyn-conc-read-{}", class(&e)), format!("thread {tid} op {i}: read of payload {p} failed: {e}")),
+                            }
+                        }
+                        D::X(p) => {
+                            if let Err(e) = rt.block_on(c.remove(&keys[p])) {
+                                let save = e.to_string().contains("Failed to save index");
+                                fail(&if save { "dyn-conc-save-index-fails".to_string() } else { format!("dyn-conc-remove-{}", class(&e)) }, format!("thread {tid} op {i}: remove of payload {p} failed: {e}"));
+                            }
+                        }
+                        D::Q(p) => {
+                            if let Err(e) = rt.block_on(c.query(&keys[p])) {
+                                fail(&format!("dyn-conc-query-{}", class(&e)), format!("thread {tid} op {i}: query failed: {e}"));
+                            }
+                        }
+                    }));
+                    if res.is_err() {
+                        fail("dyn-conc-panic", format!("thread {tid} op {i} ({op:?}) panicked"));
+                    }
+                }
+            }));
+        }
+        for h in handles {
+            let _ = h.join();
+        }
+        let mut fails = fails.lock().unwrap_or_else(|e| e.into_inner()).clone();
+        // quiescence: counts settle, every key is absent or reads back exactly, nothing that was
+        // written and never removed by anybody is lost, nothing never written is present
+        let mut present = 0usize;
+        for p in 0..np {
+            let q = rt.block_on(c.query(&keys[p])).unwrap_or(false);
+            let mut buf = vec![0u8; pool[p].len() + 64];
+            let rd = rt.block_on(c.read(&keys[p], 0, 0, &mut buf));
+            let written = progs.iter().flatten().any(|o| matches!(o, D::W(x) if *x == p));
+            let removed = progs.iter().flatten().any(|o| matches!(o, D::X(x) if *x == p));
+            match (&rd, q) {
+                (Ok(n), true) => {
+                    present += 1;
+                    if buf[..*n] != pool[p][..] {
+                        fails.push(("dyn-conc-read-wrong-bytes".into(), format!("at quiescence payload {p} reads back {n} bytes that are not the {} bytes written", pool[p].len())));
+                    }
+                    if !written {
+                        fails.push(("dyn-conc-unwritten-present".into(), format!("at quiescence payload {p} is present although nobody wrote it")));
+                    }
+                }
+                (Err(StorageError::NotFound(_)), false) => {
+                    if written && !removed {
+                        fails.push(("dyn-conc-lost-write".into(), format!("at quiescence payload {p} is absent although it was written and never removed")));
+                    }
+                }
+                (Ok(_), false) | (Err(StorageError::NotFound(_)), true) => {
+                    fails.push(("dyn-conc-query-read-disagree".into(), format!("at quiescence payload {p}: query = {q}, read = {}", if rd.is_ok() { "ok" } else { "notfound" })));
+                }
+                (Err(e), _) => {
+                    if q {
+                        present += 1;
+                    }
+                    fails.push((format!("dyn-conc-read-{}", class(e)), format!("at quiescence read of payload {p} failed: {e}")));
+                }
+            }
+        }
+        if c.entry_count() != present {
+            fails.push(("dyn-conc-entry-count".into(), format!("at quiescence entry_count() = {} but {present} of the pool keys are present", c.entry_count())));
+        }
+        // the index files were saved by several threads (save_all under the index READ lock):
+        // what a new process finds on disk must be the same contents
+        let was_present: Vec<bool> = (0..np).map(|p| rt.block_on(c.query(&keys[p])).unwrap_or(false)).collect();
+        drop(c);
+        match DynamicContainer::builder(dir.path().join("data")).access_mode(AccessMode::ReadWrite).segment_limit(100).max_segment_size(1 << 30).build() {
+            Ok(c2) => {
+                if let Err(e) = rt.block_on(c2.open()) {
+                    fails.push(("dyn-conc-reopen-fails".into(), format!("open after the run: {e}")));
+                } else {
+                    for p in 0..np {
+                        let q = rt.block_on(c2.query(&keys[p])).unwrap_or(false);
+                        if q != was_present[p] {
+                            fails.push(("dyn-conc-reopen-differs".into(), format!("payload {p}: present = {} before drop, {q} after re-opening the directory", was_present[p])));
+                        } else if q {
+                            let mut buf = vec![0u8; pool[p].len() + 64];
+                            match rt.block_on(c2.read(&keys[p], 0, 0, &mut buf)) {
+                                Ok(n) if buf[..n] == pool[p][..] => {}
+                                Ok(n) => fails.push(("dyn-conc-read-wrong-bytes".into(), format!("after re-opening, payload {p} reads back {n} wrong bytes"))),
+                                Err(e) => fails.push((format!("dyn-conc-reopen-read-{}", class(&e)), format!("after re-opening, read of payload {p} failed: {e}"))),
+                            }
+                        }
+                    }
+                }
+            }
+            Err(e) => fails.push(("dyn-conc-reopen-fails".into(), format!("build after the run: {e}"))),
+        }
+        for o in progs.iter().flatten() {
+            r.s.tally(match o {
+                D::W(_) => "dyn:op:write",
+                D::R(_) => "dyn:op:read",
+                D::X(_) => "dyn:op:remove",
+                D::Q(_) => "dyn:op:query",
+            });
+        }
+        // one report per sig and round
+        fails.sort();
+        fails.dedup_by(|a, b| a.0 == b.0);
+        for (sig, msg) in fails {
+            r.s.oracle_fail(&sig, &format!("{msg}; programs {progs:?}"), &[line.clone()]);
+        }
+    }
+
     fn alphabet() -> Vec<Op> {
         vec![
             Op::Get(0),
@@ -1446,7 +1668,7 @@ mod real {
         quiet_panics();
         install_callback();
         let mut r = Runner { s: Session::new(&args.out), known_printed: BTreeMap::new() };
-        r.s.rule = "one evaluation = one schedule replayed on the real MemoryCache by the controller; non-trivial = the schedule switches threads at least once inside an operation (between two of its shared-state accesses); distinct = canonical request line (programs + executed schedule)".into();
+        r.s.rule = "one evaluation = one schedule replayed on the real MemoryCache or DiskCache by the controller, or one free-running DynamicContainer stress round (dstress); non-trivial = the schedule switches threads at least once inside an operation (between two of its shared-state accesses), every stress round counts; distinct = canonical request line (programs + executed schedule / round number)".into();
         if let Some(f) = &args.replay {
             for l in read_case(f) {
                 match Case::parse(&l) {
@@ -1456,6 +1678,11 @@ mod real {
                         let mut out = out;
                         out.sched = sched.iter().map(|d| char::from_digit(*d as u32, 10).unwrap_or('?')).collect();
                         r.emit(&case, &out);
+                    }
+                    None if l.starts_with("dstress ") => {
+                        // same programs (from the round's seed), thread timing is free again
+                        let field = |name: &str| l.split(' ').find_map(|t| t.strip_prefix(name)).and_then(|v| v.parse::<u64>().ok()).unwrap_or(0);
+                        dyn_round(&mut r, field("seed="), field("round="));
                     }
                     None => match DCase::parse(&l) {
                         Some((case, sched)) => {
@@ -1532,8 +1759,8 @@ mod real {
         }
         r.s.tally_n("D:disk-program-sets-1x1-all-schedules", dsets);
         // E. 2 threads x 2 operations: every schedule (up to a cap) of sampled program sets
-        let ne = if args.thorough() { 150 } else { 6 };
-        let ecap = if args.thorough() { 4_000 } else { 300 };
+        let ne = if args.thorough() { 100 } else { 6 };
+        let ecap = if args.thorough() { 3_000 } else { 300 };
         for _ in 0..ne {
             let pre = rng.pick(&dpres).clone();
             let prog = |rng: &mut Rng| vec![rng.pick(&dalpha).clone(), rng.pick(&dalpha).clone()];
@@ -1552,6 +1779,14 @@ mod real {
         }
         r.s.tally_n("F:disk-random-cases", nf);
         r.s.extra.insert("wall_ms_disk".into(), serde_json::json!(t1.elapsed().as_millis() as u64));
+        // ---- DynamicContainer: concurrent write / read / remove, real threads, oracle only
+        let t2 = Instant::now();
+        let ng = if args.thorough() { 8_000 } else { 800 };
+        for i in 0..ng {
+            let rs = rng.next();
+            dyn_round(&mut r, rs, i);
+        }
+        r.s.extra.insert("wall_ms_dyn".into(), serde_json::json!(t2.elapsed().as_millis() as u64));
         r.s.extra.insert("wall_ms_generate".into(), serde_json::json!(t0.elapsed().as_millis() as u64));
         r.s.finish();
     }
